@@ -521,23 +521,40 @@ defect of the original tree, `DiscreteArray(time_limit)`), and a wrong plane cou
 example : SpecTieSSM.tie "snake-5x6" (obsBounds ⟨5, 6, 11⟩) (obsShapes ⟨5, 6, 10⟩) = false ∧
     SpecTieSSM.tie "snake-5x6" (obsBounds ⟨5, 6, 10⟩) [("grid", [5, 6, 4]), ("step_count", []), ("action_mask", [4])] = false := by
   decide +kernel
+/-! NOTE on what the membership theorems of this section do and do not cover (audits r4 #6, r5 #6, r6 #8): the dtype tag of every leaf
+is written by `toNValue` (by construction) — a wrong dtype in the real code cannot falsify `….valid (toNValue …) = true`; dtypes and
+field order of the real observations are compared by the `snake.spec` / `snake.state` ops (`nvalue`: field order, shape, dtype, data) and
+`jax.eval_shape` in the sweeps.  Shapes are READ OFF the value by `toNValue` (widths off the first row): see `…_obs_valid_only`. -/
+
 /-! #### (wave 4) membership in the DECLARED specs: structure, field order, shapes, dtypes and inclusive bounds -/
 open Sp PzS PkS
 
 /-- the model's `obsSpec` / `actionSpec` / reward and discount specs ARE the specs generated from the real spec objects
 (Gen/Specs.lean) for the catalogue configuration `Snake(num_rows=5, num_cols=6, time_limit=10)`: `grid` BoundedArray((5, 6, 5),
-float32, 0, 1), `step_count` DiscreteArray(11), `action_mask` BoundedArray((4,), bool) -/
+float32, 0, 1), `step_count` DiscreteArray(11), `action_mask` BoundedArray((4,), bool)
+SPEC-ONLY second configuration `Snake(num_rows=3, num_cols=7, time_limit=13)` (rows, columns, planes 5, actions 4 and the limit
+pairwise distinct) -/
 theorem snake_obsSpec_generated :
     prefixed "observation_spec." (obsSpec ⟨5, 6, 10⟩) = declared "snake-5x6" "observation_spec." ∧
     [("action_spec", Snake.actionSpec)] = declared "snake-5x6" "action_spec" ∧
     [("reward_spec", rewardSpec)] = declared "snake-5x6" "reward_spec" ∧
-    [("discount_spec", discountSpec)] = declared "snake-5x6" "discount_spec" := by
-  refine ⟨by decide, by decide, by decide, by decide⟩
+    [("discount_spec", discountSpec)] = declared "snake-5x6" "discount_spec" ∧
+    prefixed "observation_spec." (obsSpec ⟨3, 7, 13⟩) = declared "spec-only-snake-3x7" "observation_spec." ∧
+    [("action_spec", Snake.actionSpec)] = declared "spec-only-snake-3x7" "action_spec" ∧
+    [("reward_spec", rewardSpec)] = declared "spec-only-snake-3x7" "reward_spec" ∧
+    [("discount_spec", discountSpec)] = declared "spec-only-snake-3x7" "discount_spec" := by
+  refine ⟨by decide +kernel, by decide +kernel, by decide +kernel, by decide +kernel, by decide +kernel, by decide +kernel,
+    by decide +kernel, by decide +kernel⟩
 
 /-- the `reset` observation (ALL board sizes with at least one row, ANY head and fruit draws — admissible or not) is accepted
 by `observation_spec.validate`: fields `grid`, `step_count`, `action_mask`; shapes `(R, C, 5)`, `()`, `(4,)`; dtypes float32,
 int32, bool; bounds `[0, 1]`, `{0 … time_limit}`, `[0, 1]`.  `RndKeeps01 rnd`: the float32 rounding of
-`body_state / max(1, max)` maps `[0, 1]` into `[0, 1]` (as in `snake_reset_obs_in_bounds`) -/
+`body_state / max(1, max)` maps `[0, 1]` into `[0, 1]` (as in `snake_reset_obs_in_bounds`).
+NOTE (audit r6 #2): `0 ≤ time_limit` suffices for the RESET observation only; every step theorem below needs
+`step_count < time_limit`, i.e. `0 < time_limit`.  `Snake.__init__` accepts `time_limit = 0`, and there the first step's
+observation is NOT a member: `snake_time_limit_zero_witness`, `snake_time_limit_zero_step_obs_not_valid`.
+The dtype tag of every leaf is written by `toNValue` (by construction); dtypes and field order of the real observations are
+compared by the `snake.spec` / `state` ops and `jax.eval_shape` in the sweeps. -/
 theorem snake_reset_obs_valid (rnd : Rat → Rat) (hrnd : RndKeeps01 rnd) (cfg : Cfg) (hR : 0 < cfg.rows)
     (htl : 0 ≤ cfg.timeLimit) (hr hc d : Nat) :
     (obsSpec cfg).valid (toNValue (reset rnd cfg hr hc d).2.obs) = true :=
@@ -588,7 +605,10 @@ theorem snake_obs_valid_roundF32 (cfg : Cfg) (hR : 0 < cfg.rows) :
 
 /-- what membership means (so the theorems above are not hollow): `validate` accepts an observation ONLY IF the board has the
 configured shape, all five plane values of every cell lie in `[0, 1]`, the counter lies in `[0, time_limit]` and the mask
-has four entries -/
+has four entries.  CAVEAT (audit r6 #5): `toNValue` reads the `grid` shape off `body` alone (row count, and the column count
+off its FIRST row), so this theorem says nothing about the shape of the other four planes or of the later rows of `body` —
+a ragged value can be a member.  Rectangularity of all five planes is the `ObsShaped` conjunct of `snake_step_obs_conforms` /
+`snake_reset_obs_shaped` / `snake_step_obs_shaped` and of `snake_step_obs_valid_shaped` below, proved for every emitted observation. -/
 theorem snake_obs_valid_only (cfg : Cfg) (o : Obs) (h : (obsSpec cfg).valid (toNValue o) = true) :
     o.body.length = cfg.rows ∧ (o.body.headD []).length = cfg.cols ∧
     (∀ r c, r < cfg.rows → c < cfg.cols →
@@ -608,6 +628,32 @@ example :
     (obsSpec ⟨2, 4, 4⟩).valid (toNValue (reset id ⟨2, 3, 4⟩ 0 0 5).2.obs) = false ∧
     (obsSpec ⟨2, 3, 0⟩).valid (toNValue (step id ⟨2, 3, 1⟩ (reset id ⟨2, 3, 1⟩ 0 0 5).1 1 0).2.obs) = false := by
   decide +kernel
+
+/-! #### audit r6 #2: `time_limit = 0` is accepted by the constructor and is a real C01 violation -/
+
+/-- WITNESS: `Snake(num_rows=2, num_cols=3, time_limit=0)`: the reset observation is a member of the declared spec, the first
+step is LAST and its observation (`step_count = 1`, declared `DiscreteArray(1)` = {0}) is NOT.  Real code: `validate` raises
+"Values were not all within bounds 0 <= 1 <= 0 for spec step_count" (reproduction in the report). -/
+theorem snake_time_limit_zero_witness :
+    (obsSpec ⟨2, 3, 0⟩).valid (toNValue (reset id ⟨2, 3, 0⟩ 0 0 5).2.obs) = true ∧
+    (step id ⟨2, 3, 0⟩ (reset id ⟨2, 3, 0⟩ 0 0 5).1 1 0).2.stepType = .last ∧
+    (obsSpec ⟨2, 3, 0⟩).valid (toNValue (step id ⟨2, 3, 0⟩ (reset id ⟨2, 3, 0⟩ 0 0 5).1 1 0).2.obs) = false := by
+  decide +kernel
+
+/-- … for ALL board sizes, roundings, draws, states with a non-negative counter (e.g. every reset state) and ANY action: with
+`time_limit ≤ 0` the observation of the step is rejected by the declared spec — so `0 < time_limit` in the step theorems is
+necessary, not a convenience -/
+theorem snake_time_limit_zero_step_obs_not_valid (rnd : Rat → Rat) (cfg : Cfg) (h0 : cfg.timeLimit ≤ 0) (s : State)
+    (hs : 0 ≤ s.stepCount) (a : Int) (d : Nat) :
+    (obsSpec cfg).valid (toNValue (step rnd cfg s a d).2.obs) = false :=
+  Snake.time_limit_zero_step_obs_not_valid rnd cfg h0 s hs a d
+
+/-- membership TOGETHER with the rectangular shapes `valid ∘ toNValue` does not imply (audit r6 #5): every step observation
+from a state with the invariant is a member AND all five planes are `rows × cols`, the mask has 4 entries -/
+theorem snake_step_obs_valid_shaped (rnd : Rat → Rat) (hrnd : RndKeeps01 rnd) (cfg : Cfg) (hR : 0 < cfg.rows) (s : State)
+    (h : SpecInv cfg s) (hlim : s.stepCount < cfg.timeLimit) (a : Int) (d : Nat) :
+    (obsSpec cfg).valid (toNValue (step rnd cfg s a d).2.obs) = true ∧ ObsShaped cfg (step rnd cfg s a d).2.obs :=
+  ⟨Snake.step_obs_valid rnd hrnd cfg hR s h hlim a d, (Snake.step_obs_shaped rnd cfg s a d h.1).1⟩
 
 /-- reward and discount of every `step` (ALL states, ALL integer actions, all draws) and of `reset` are accepted by
 `reward_spec` (Array((), float)) and `discount_spec` (BoundedArray((), float, 0, 1)) -/
